@@ -51,7 +51,7 @@ def hash_obj(obj):
     return hashlib.sha256(jdump(obj).encode()).hexdigest()[:16]
 
 
-VOLATILE_KEYS = ("cpu_us", "stderr", "wall_s")
+VOLATILE_KEYS = ("cpu_us", "stderr", "wall_s", "cost_us")
 
 
 def strip_volatile(obj):
